@@ -108,6 +108,34 @@ fn m_adders(threads: usize, per: usize, prefill: u32) {
     record(outcome, contended);
 }
 
+/// Sequential lengths around every bucket boundary: add n elements, read all back, drop, count
+/// drops. One thread, so each length costs a single loom execution.
+fn m_seq_lengths() {
+    let mut seen = vec![];
+    for n in [0usize, 1, 2, 126, 127, 128, 129, 130, 255, 256, 382, 383, 384, 385, 386, 895, 896, 897] {
+        let drops = counters(n.max(1));
+        let arena: Arena = AtomicArena::new();
+        arena.verif_force_init();
+        for i in 0..n {
+            let r = arena.add(Tracked { id: i as u32, drops: drops.clone() });
+            assert_eq!(r.index() as usize, i, "sequential additions must get dense indices");
+        }
+        assert_eq!(arena.len(), n);
+        for i in 0..n {
+            let r: Ref<'static, Tracked> = unsafe { Ref::from_index(i as u32) };
+            assert_eq!(arena.get(r).id as usize, i);
+        }
+        drop(arena);
+        for i in 0..n {
+            assert_eq!(drops[i].load(StdOrdering::Relaxed), 1, "arena of length {n}: element {i} dropped {} times", drops[i].load(StdOrdering::Relaxed));
+        }
+        seen.push(n);
+    }
+    // two outcomes so that the vacuity floor is met: lengths below / above the first boundary
+    record(format!("lengths {:?}", &seen[..5]), false);
+    record(format!("lengths {:?}", &seen[5..]), true);
+}
+
 /// M3: two adders publish their Refs through a loom Mutex; a reader thread takes whatever is
 /// published, reads it back, and observes len() twice.
 fn m_reader(prefill: u32) {
@@ -330,6 +358,8 @@ fn specs() -> Vec<ModelSpec> {
         ModelSpec { name: "arena_2x2", property: "C06", bound: |t| t.pick(Some(2), Some(4)), run: || m_adders(2, 2, 0), what: "2 threads x 2 adds, read back, len monotone, drop counts" },
         ModelSpec { name: "arena_boundary_2x2", property: "C06", bound: |t| t.pick(Some(2), Some(4)), run: || m_adders(2, 2, 127), what: "127 sequential adds, then 2 threads x 2 adds racing across the first bucket boundary (slice_for_slot_slow)" },
         ModelSpec { name: "arena_boundary_3x1", property: "C06", bound: |t| t.pick(Some(1), Some(3)), run: || m_adders(3, 1, 127), what: "127 sequential adds, then 3 threads x 1 add racing to allocate the same bucket" },
+        ModelSpec { name: "arena_fill_exact_2x1", property: "C06", bound: |t| t.pick(Some(3), None), run: || m_adders(2, 1, 126), what: "126 sequential adds, then 2 threads x 1 add fill the first bucket exactly; drop of an exactly full last bucket" },
+        ModelSpec { name: "arena_seq_lengths", property: "C06", bound: |_| Some(1), run: m_seq_lengths, what: "sequential: every length around the first three bucket boundaries (0..2, 126..130, 255..256, 382..386, 895..897): dense indices, read back, exactly-once drop" },
         ModelSpec { name: "arena_3x2", property: "C06", bound: |t| t.pick(Some(1), Some(2)), run: || m_adders(3, 2, 0), what: "3 threads x 2 adds" },
         ModelSpec { name: "arena_reader", property: "C06", bound: |t| t.pick(Some(1), Some(3)), run: || m_reader(0), what: "2 adders publish Refs through a mutex, reader thread reads them back and observes len twice" },
         ModelSpec { name: "arena_reader_boundary", property: "C06", bound: |t| t.pick(Some(1), Some(3)), run: || m_reader(127), what: "same, additions land in a freshly allocated bucket" },
